@@ -70,8 +70,8 @@ OP_KINDS = ["remove_program", "reconcile", "remove_pop", "add_pop", "add_program
 
 
 @st.composite
-def _op(draw):
-    k = draw(st.sampled_from(OP_KINDS))
+def _op(draw, rnd):
+    k = rnd.choice(OP_KINDS)  # Hypothesis-controlled Random: uniform, whereas sampled_from favours the first entries in small runs
     op = {"op": k, "i": draw(st.integers(0, 5))}
     if k in ("copy", "sample"):
         op["what"] = draw(st.sampled_from(["ps", "pg"] + (["data"] if k == "copy" else [])))
@@ -113,7 +113,8 @@ def _calib_edits(draw):
 
 @st.composite
 def cases(draw, tier):
-    kind = draw(st.sampled_from(KINDS))
+    rnd = draw(st.randoms(use_true_random=False))
+    kind = rnd.choice(KINDS)
     prof = dict(PROFILE)
     if tier == "thorough":
         prof.update(max_steps=40, max_ord=4)
@@ -129,7 +130,8 @@ def cases(draw, tier):
             spec["progs"] = _round15(spec["progs"])
     case = {"kind": kind, "spec": spec, "exact": exact, "feats": sorted(feats)}
     if kind == "stateful":
-        case["ops"] = draw(st.lists(_op(), min_size=1, max_size=4))
+        n_ops = draw(st.sampled_from([1, 2, 2, 3, 3, 4, 4]))
+        case["ops"] = [draw(_op(rnd)) for _ in range(n_ops)]
     elif kind == "calib":
         case["edits"] = draw(_calib_edits())
         if not (case["edits"]["drop"] or case["edits"]["unknown_rows"] or case["edits"]["unknown_col"]):
@@ -729,20 +731,24 @@ def check_state(s, v, after, exact_inputs):
     if reb is not None:
         arr2, e3 = _try(lambda: H.arrays(H.simulate(s.stg, s.F, reb[1], reb[2], s.ins)))
     e_exp = e2 or e3
+    if e1 is not None and not _deliberate(e1):
+        # a refusal (validation error) is a legitimate way of being un-simulatable; a crash of the live object is not
+        v.add("stateful/after-%s/behaviour" % after, "live objects crash with %r (%s); their own export: %s" % (e1, _exc(e1), "simulates" if e_exp is None else repr(e_exp)))
+        return "diverged"
     if e1 is not None and e_exp is not None:
-        return "both-unusable"
+        return "both-unusable(live:%s/export:%s)" % (_exc(e1), _exc(e_exp))
     if e1 is not None:
-        v.add("stateful/live-fails-export-runs/after-%s/%s" % (after, _exc(e1)), "live objects raise %r while the objects rebuilt from their exported spreadsheets simulate" % e1)
+        v.add("stateful/after-%s/behaviour" % after, "live objects raise %r (%s) while the objects rebuilt from their exported spreadsheets simulate" % (e1, _exc(e1)))
         return "diverged"
     if e_exp is not None:
         stage = "export-or-read" if e2 is not None else "simulate"
-        v.add("stateful/export-unusable-live-runs/after-%s/%s/%s" % (after, stage, _exc(e_exp)), "live objects simulate; their own export: %r" % e_exp)
+        v.add("stateful/after-%s/behaviour" % after, "live objects simulate; their own export fails at %s: %r (%s)" % (stage, e_exp, _exc(e_exp)))
         return "diverged"
     D2, ps2, pg2 = reb
     n0 = len(v.items)
-    same = _content(v, "databook", H.proj_data(s.D), H.proj_data(D2), RTOL_CONTENT, "stateful/content/after-" + after)
-    same &= _content(v, "progbook", H.proj_progset(s.pg), H.proj_progset(pg2), RTOL_CONTENT, "stateful/content/after-" + after)
-    same &= _content(v, "calibration", H.proj_calibration(s.ps), H.proj_calibration(ps2), RTOL_CONTENT, "stateful/content/after-" + after)
+    same = _content(v, "databook", H.proj_data(s.D), H.proj_data(D2), RTOL_CONTENT, "stateful/after-%s/content" % after)
+    same &= _content(v, "progbook", H.proj_progset(s.pg), H.proj_progset(pg2), RTOL_CONTENT, "stateful/after-%s/content" % after)
+    same &= _content(v, "calibration", H.proj_calibration(s.ps), H.proj_calibration(ps2), RTOL_CONTENT, "stateful/after-%s/content" % after)
     if len(v.items) > n0:
         return "diverged"
     c = _cmp(live, arr2, same)
@@ -754,7 +760,7 @@ def check_state(s, v, after, exact_inputs):
             culprit = "progset"
         elif a_ps is not None and _cmp(live, a_ps, same) and not (a_pg is not None and _cmp(live, a_pg, same)):
             culprit = "parset"
-        v.add("stateful/hidden-state/%s/after-%s" % (culprit, after), "same visible content (%s) but the live %s simulates differently from the one rebuilt from its export: %r" % ("bit-identical" if same else "1e-14", culprit, c))
+        v.add("stateful/after-%s/behaviour" % after, "same visible content (%s) but the live %s simulates differently from the one rebuilt from its export: %r" % ("bit-identical" if same else "1e-14", culprit, c))
         return "diverged"
     return "agree"
 
@@ -783,7 +789,7 @@ def check_stateful(case):
             if _deliberate(e):
                 labels.append("op-refused:" + name)
                 continue
-            v.add("stateful/op-crashes/%s/%s" % (name, _exc(e)), "operation %r on a valid object raised %r" % (op, e))
+            v.add("stateful/op-crashes/%s/%s" % (name, type(e).__name__), "operation %r on a valid object raised %r at %s" % (op, e, _exc(e)))
             v.flush()
         v.flush()
         s = t
